@@ -196,6 +196,10 @@ func (o *c15Oracle) AfterTx(s *Sim, r *Replica, idx int, raw []byte, st mkvs.Key
 	after := snapStaking(s.Ctx, iterTree{storeTree{dumpState(s, st)}})
 	what := fmt.Sprintf("height %d tx %d (%s from signer %d, result %s/%d)", s.Height+1, idx, b.Op.Kind, b.Op.From, res.Codespace, res.Code)
 	signer := staking.NewAddress(b.Signer)
+	// The accounts that act in this transaction: its signer and the vaults on whose behalf it
+	// executed an action (a vault.AuthorizeAction that reaches the threshold dispatches the
+	// action's message with the vault as the caller).
+	actors := append([]staking.Address{signer}, vaultActors(res.Events)...)
 	for e, e0 := range o.before.esc {
 		e1 := after.esc[e]
 		if e1 == nil {
@@ -216,7 +220,7 @@ func (o *c15Oracle) AfterTx(s *Sim, r *Replica, idx int, raw []byte, st mkvs.Key
 		}
 		// Nobody's redeemable value falls because of another account's deposit or redemption.
 		for d, sh0 := range e0.dels {
-			if d.Equal(signer) {
+			if vaultContains(actors, d) {
 				continue
 			}
 			sh1 := e1.dels[d]
